@@ -1118,6 +1118,32 @@ pub struct Layout {
     pub keep_record_let_rhs_bare: bool,
 }
 
+/// Wrap a scalar `dsp` body B as `{ let gate_pre = mem(now)  let gv = B  if (now > K) { gv + mem(gv) } else { gv } }`: the
+/// last state cell of the layout is then first touched at sample K+1 (a single trailing mem cell in
+/// a then-arm is the one shape of stateful code in a branch that both backends execute correctly).
+pub fn add_tail_gate(p: &mut Prog, k: u32) -> bool {
+    for t in p.tops.iter_mut() {
+        if let Top::Fn(f) = t {
+            if f.name == "dsp" && f.ret == Ty::Num {
+                let body = std::mem::replace(&mut f.body, E::Now);
+                let gv = || Box::new(E::Var("gate_v".into()));
+                f.body = E::Block(
+                    // a state cell in front: with no cell before it the gated cell is addressed wrongly
+                    // on both backends (part of the recorded finding on stateful code in `if` arms)
+                    vec![S::Let(Pat::Var("gate_pre".into()), E::Mem(9_000_002, Box::new(E::Now))), S::Let(Pat::Var("gate_v".into()), body)],
+                    Box::new(E::If(
+                        Box::new(E::Bin(Bop::Gt, Box::new(E::Now), Box::new(E::Lit(format!("{k}.0"))))),
+                        Box::new(E::Bin(Bop::Add, gv(), Box::new(E::Mem(9_000_001, gv())))),
+                        gv(),
+                    )),
+                );
+                return true;
+            }
+        }
+    }
+    false
+}
+
 pub fn render(p: &Prog, lay: &Layout) -> String {
     let mut out = String::new();
     let mut cn = 0usize;
